@@ -3,12 +3,11 @@
     (i)  [c_model]: the Gallina model of Equil/Model.v run at [OpsF] (binary64, same
          operation order as the Rust code) on the inputs the Rust code received, compared
          with what the Rust code left in [solver.data.{P,q,A,b,equilibration}].
-         Code 0 = bit-identical, 2 = every number within relative 1e-13 (harmless
-         re-association), 1 = disagreement.
+         Code 0 = every number bit-identical, 1 = some bit differs (no tolerance).
     (ii) [c_props]: the statement of the property evaluated on the *Rust output alone*, in
          exact dyadic arithmetic (every finite binary64 is a dyadic): data = returned
          scalings applied to the user's data within the stated relative tolerance, bounds
-         within (1 +- 2^-51) for d, c and (1 +- 2^-48) for e, e constant (within 2^-49 relative) on every cone that is not
+         (either order of min/max) within (1 +- 2^-51) for d, c and (1 +- 2^-48) for e, e constant (within 2^-49 relative) on every cone that is not
          Zero/NN, zero rows/columns unscaled (exactly 1), inverses, positivity; with
          equilibration disabled everything exactly untouched.
     (iii) [c_strict_bounds], [c_strict_uniform]: the literal statement (bounds without
@@ -50,36 +49,56 @@ Fixpoint list_all2 {X} (f : X -> X -> bool) (a b : list X) : bool :=
   | _, _ => false
   end.
 
-(** ** (i) model at binary64 *)
+(** ** (i) model at binary64: BITWISE equality *)
+Definition class_code (c : float_class) : N :=
+  match c with
+  | PNormal => 0 | NNormal => 1 | PSubn => 2 | NSubn => 3 | PZero => 4 | NZero => 5
+  | PInf => 6 | NInf => 7 | NaN => 8
+  end%N.
+(** same bit pattern (finite values and infinities; the two zeros are distinguished; NaN matches
+    NaN whatever the payload) *)
 Definition fbits_eq (x y : float) : bool :=
   match PrimFloat.compare x y with
-  | FEq => true
+  | FEq => N.eqb (class_code (PrimFloat.classify x)) (class_code (PrimFloat.classify y))
+  | FNotComparable => PrimFloat.is_nan x && PrimFloat.is_nan y
   | _ => false
   end.
-(** |x - y| <= 1e-13 * max(|x|,|y|) *)
+(** |x - y| <= 1e-13 * max(|x|,|y|): used only by the diagnosis of a mismatch *)
 Definition fclose (x y : float) : bool :=
   let d := PrimFloat.abs (PrimFloat.sub x y) in
   let m := if PrimFloat.ltb (PrimFloat.abs x) (PrimFloat.abs y) then PrimFloat.abs y else PrimFloat.abs x in
   PrimFloat.leb d (PrimFloat.mul 0x1.c25c268497682p-44%float m).
 
-Definition dense_all2 (f : float -> float -> bool) (a b : @csc float) : bool :=
+(** stored entries, in storage order: same rows, same values *)
+Definition stored_all2 (f : float -> float -> bool) (a b : @csc float) : bool :=
   (nr a =? nr b) && (nc a =? nc b) &&
-  list_all2 (list_all2 f) (to_dense OpsF a) (to_dense OpsF b).
+  list_all2 (list_all2 (fun x y : nat * float => (fst x =? fst y) && f (snd x) (snd y))) (cols a) (cols b).
 
+Definition model_fields (f : float -> float -> bool) (o : out float) (p : @pdata float) : list bool :=
+  [ stored_all2 f (decode (oP o)) (pP p); stored_all2 f (decode (oA o)) (pA p);
+    list_all2 f (oq o) (pq p); list_all2 f (ob o) (pb p);
+    list_all2 f (od o) (ed (peq p)); list_all2 f (odinv o) (edinv (peq p));
+    list_all2 f (oe o) (ee (peq p)); list_all2 f (oeinv o) (eeinv (peq p));
+    f (oc o) (ec (peq p)) ].
 Definition model_rel (f : float -> float -> bool) (o : out float) (p : @pdata float) : bool :=
-  dense_all2 f (decode (oP o)) (pP p) && dense_all2 f (decode (oA o)) (pA p)
-  && list_all2 f (oq o) (pq p) && list_all2 f (ob o) (pb p)
-  && list_all2 f (od o) (ed (peq p)) && list_all2 f (odinv o) (edinv (peq p))
-  && list_all2 f (oe o) (ee (peq p)) && list_all2 f (oeinv o) (eeinv (peq p))
-  && f (oc o) (ec (peq p)).
+  forallb (fun b => b) (model_fields f o p).
 
+(** 0 = every number the implementation left in solver.data.{P,q,A,b,equilibration} has the bit
+    pattern the model computes at binary64; 1 = some bit differs *)
 Definition c_model (en : bool) (iters : N) (smin smax : float) (cs : list (ckind * N))
            (P : @raw float) (q : list float) (A : @raw float) (b : list float)
            (o : out float) : N :=
   let S := mkSettings en (N.to_nat iters) smin smax in
   let p := setup OpsF S (mkcones cs) (decode P) q (decode A) b in
-  if model_rel fbits_eq o p then 0%N
-  else if model_rel fclose o p then 2%N else 1%N.
+  if model_rel fbits_eq o p then 0%N else 1%N.
+(** diagnosis of a mismatch: which of P, A, q, b, d, dinv, e, einv, c differ bitwise, and which
+    differ by more than relative 1e-13 *)
+Definition c_model_diag (en : bool) (iters : N) (smin smax : float) (cs : list (ckind * N))
+           (P : @raw float) (q : list float) (A : @raw float) (b : list float)
+           (o : out float) : list bool * list bool :=
+  let S := mkSettings en (N.to_nat iters) smin smax in
+  let p := setup OpsF S (mkcones cs) (decode P) q (decode A) b in
+  (model_fields fbits_eq o p, model_fields fclose o p).
 
 (** ** (ii) the property on the Rust output, exact dyadic arithmetic *)
 Definition OpsD : Ops dy := {|
@@ -158,9 +177,20 @@ Definition all_one (l : list dy) (n : nat) : bool := (length l =? n) && forallb 
 Definition slack : dy := D 1 (-51).
 Definition slack_e : dy := D 1 (-48).
 
-(** [cs] are the cones as the *user* gave them.  The bounds / zero-row clauses are claimed
-    for min <= 1 <= max (see Props/C10.v, C10_equil_bounds); the harness only generates such
-    settings apart from the dedicated witness of C10_equil_bounds_literal_refuted. *)
+(** what the bound theorems say for the given settings (C10_equil_bounds_gen, any 0 < min, max,
+    in either order): with lo = min(min,max), hi = max(min,max):
+      1 in [lo,hi]           -> d, e, c in [lo,hi] for every max_iter;
+      otherwise, max_iter>=1 -> d, e in [lo,hi]; c in [lo,hi] or c = 1;
+      otherwise              -> d = e = c = 1. *)
+Definition bounds_clause (iters : N) (smin smax : dy) (d e : list dy) (c : dy) : bool :=
+  let lo := dmin smin smax in let hi := dmax smin smax in
+  if dleb lo d1 && dleb d1 hi then bounds_ok2 slack slack_e lo hi d e c
+  else if N.ltb 0 iters then
+    forallb (within slack lo hi) d && forallb (within slack_e lo hi) e
+    && (within slack lo hi c || deqb c d1)
+  else forallb (fun x => deqb x d1) d && forallb (fun x => deqb x d1) e && deqb c d1.
+
+(** [cs] are the cones as the *user* gave them. *)
 Definition c_props (en : bool) (iters : N) (smin smax : dy) (cs : list (ckind * N))
            (P : @raw dy) (q : list dy) (A : @raw dy) (b : list dy) (o : out dy) : N :=
   let cs := mkcones cs in
@@ -170,17 +200,33 @@ Definition c_props (en : bool) (iters : N) (smin smax : dy) (cs : list (ckind * 
     ofb (data_ok (data_tol iters) Pm q Am b P' (oq o) A' (ob o) (od o) (oe o) (oc o)
          && forallb dpos (od o) && forallb dpos (oe o) && dpos (oc o)
          && inverses_ok (od o) (odinv o) && inverses_ok (oe o) (oeinv o)
-         && (negb (dleb smin d1 && dleb d1 smax)
-             || (bounds_ok2 slack slack_e smin smax (od o) (oe o) (oc o)
-                 && zero_unscaled_ok cs Pm Am (od o) (oe o)))
+         && bounds_clause iters smin smax (od o) (oe o) (oc o)
+         && (negb (dleb smin d1 && dleb d1 smax) || zero_unscaled_ok cs Pm Am (od o) (oe o))
          && uniform_ok (dclose 8) cs (oe o))
   else
     ofb (dense_deqb P' Pm && dense_deqb A' Am && dlist_eqb (oq o) q && dlist_eqb (ob o) b
          && all_one (od o) (nc Am) && all_one (odinv o) (nc Am)
          && all_one (oe o) (nr Am) && all_one (oeinv o) (nr Am) && deqb (oc o) d1).
 
-(** ** (iii) the literal statement (no slack) *)
-Definition c_strict_bounds (smin smax : dy) (d e : list dy) (c : dy) : N :=
-  ofb (negb (dleb smin d1 && dleb d1 smax) || bounds_ok d0 smin smax d e c).
+(** ** (iii) the literal statement (no slack), split by the operation that can round:
+    [c_strict_clip]: d, c and the e of scalar-cone rows are produced by clip-then-multiply only;
+    [c_strict_rect]: the e of rectified rows (mean, reciprocal, two products);
+    [c_strict_uniform]: e bit-constant over every rectified cone. *)
+Definition strict_applies (iters : N) (smin smax : dy) : bool :=
+  let lo := dmin smin smax in let hi := dmax smin smax in
+  (dleb lo d1 && dleb d1 hi) || N.ltb 0 iters.
+Definition e_rows (want_scalar : bool) (cs : list cone) (e : list dy) : list dy :=
+  flat_map (fun kr => match kr with (k, off, n) =>
+              if Bool.eqb (scalar_kind k) want_scalar then firstn n (skipn off e) else [] end)
+           (cone_ranges 0 cs).
+Definition c_strict_clip (iters : N) (smin smax : dy) (cs : list (ckind * N)) (d e : list dy) (c : dy) : N :=
+  let lo := dmin smin smax in let hi := dmax smin smax in
+  ofb (negb (strict_applies iters smin smax)
+       || (forallb (within d0 lo hi) d && forallb (within d0 lo hi) (e_rows true (mkcones cs) e)
+           && (within d0 lo hi c || deqb c d1))).
+Definition c_strict_rect (iters : N) (smin smax : dy) (cs : list (ckind * N)) (e : list dy) : N :=
+  let lo := dmin smin smax in let hi := dmax smin smax in
+  ofb (negb (strict_applies iters smin smax)
+       || forallb (within d0 lo hi) (e_rows false (mkcones cs) e)).
 Definition c_strict_uniform (cs : list (ckind * N)) (e : list dy) : N :=
   ofb (uniform_ok deqb (mkcones cs) e).
